@@ -133,9 +133,10 @@ def build(tier, seed):
             pre=["0 <= pt <= 2 and 0 <= pf <= 2 and 0 <= ps <= 2"], header=HDR6, timeout=T,
             body=r'''
     n = %d
-    me = NS(encoding_service=TokenEncDoc(),
-            figure_service=NS(_get_dimension=lambda d, i: 5.0,
-                              _encode_single_figure=lambda data, fmt, w, h, align: "FIG%%d" %% data))
+    me = UnifiedRTFEncoder.__new__(UnifiedRTFEncoder)
+    me.encoding_service = TokenEncDoc()
+    me.figure_service = NS(_get_dimension=lambda d, i: 5.0,
+                           _encode_single_figure=lambda data, fmt, w, h, align: "FIG%%d" %% data)
     import rtflite.figure as figmod
     saved = figmod.rtf_read_figure
     figmod.rtf_read_figure = lambda paths: (list(range(len(paths))), ["png"] * len(paths))
@@ -147,7 +148,7 @@ def build(tier, seed):
                  rtf_page=NS(page_title=KEYS[pt], page_footnote=KEYS[pf], page_source=KEYS[ps], col_width=6.0),
                  rtf_page_header=None, rtf_page_footer=None)
         import copy
-        out = UnifiedRTFEncoder._encode_figure_only(me, doc)
+        out = me._encode_figure_only(doc)
     finally:
         figmod.rtf_read_figure = saved
     body = out[out.index("SETTINGS") + len("SETTINGS"):]
@@ -193,12 +194,14 @@ def build(tier, seed):
         oid="O5.header_footer_once", sig="hdr: int, ftr: int, chunks: int", pre=["0 <= hdr <= 2 and 0 <= ftr <= 2 and 0 <= chunks <= 3"],
         header=HDR6, timeout=T,
         body=r'''
-    me = NS(encoding_service=TokenEncDoc(), _encode_body_section=lambda d, df, b: ["CHUNK%d" % i for i in range(chunks)])
+    me = UnifiedRTFEncoder.__new__(UnifiedRTFEncoder)
+    me.encoding_service = TokenEncDoc()
+    me._encode_body_section = lambda d, df, b: ["CHUNK%d" % i for i in range(chunks)]
     def mk(k):
         return None if k == 0 else NS(text=["x"] if k == 1 else None, text_color=None, text_background_color=None)
     doc = NS(df=object(), rtf_body=None, rtf_page_header=mk(hdr), rtf_page_footer=mk(ftr), rtf_page=None, rtf_title=None,
              rtf_subline=None, rtf_footnote=None, rtf_source=None, rtf_column_header=[])
-    out = UnifiedRTFEncoder.encode(me, doc)
+    out = me.encode(doc)
     return (out.count("{HEADER}") == (1 if hdr == 1 else 0) and out.count("{FOOTER}") == (1 if ftr == 1 else 0)
             and out.startswith("{START") and out.endswith("}") and out.count("SETTINGS") == 1
             and out.index("SETTINGS") < (out.index("CHUNK0") if chunks else len(out)))
